@@ -13,6 +13,12 @@ trait MT {
     fn m_ww(&self, a: W, b: W) -> u32;
 }
 
+/// constants with the same names and different values in two modules: a pattern is the path, not its last segment
+#[allow(dead_code)]
+pub mod ka { pub const A: u8 = 0; pub const B: u8 = 1; }
+#[allow(dead_code)]
+pub mod kb { pub const A: u8 = 2; pub const B: u8 = 3; }
+
 /// a type whose `PartialEq` is deliberately irregular: `eq` treats the right-hand 3 as a wildcard (not symmetric) and
 /// `ne` is three-valued (a left-hand 2 is never unequal), so `a != b` is not `!(a == b)` and `a == b` is not `b == a`
 #[derive(Clone, Debug)]
